@@ -66,7 +66,7 @@ DEEP_FRESH_METHODS = {"tolist", "astype", "flatten", "conj", "conjugate", "sum",
 EXTERNAL_MUTATORS = {  # fq function -> index of the mutated positional argument
     "numpy.fill_diagonal": 0, "numpy.put": 0, "numpy.copyto": 0, "numpy.place": 0, "numpy.putmask": 0,
     "random.shuffle": 0, "numpy.random.shuffle": 0, "heapq.heappush": 0, "heapq.heappop": 0,
-    "heapq.heapify": 0, "setattr": 0, "delattr": 0, "bisect.insort": 0, "numpy.add.at": 0,
+    "heapq.heapify": 0, "pyscf.lib.takebak_2d": 0, "setattr": 0, "delattr": 0, "bisect.insort": 0, "numpy.add.at": 0,
 }
 # attribute / element names whose values are immutable scalars in this code base: a path ending here
 # denotes no mutable object (keeps the collapsed P-objects from flagging arithmetic on numbers / strings)
